@@ -1,5 +1,6 @@
 mod cluster;
 mod consistency;
+mod consumers;
 mod faulty;
 mod group;
 mod keyspace;
@@ -12,6 +13,9 @@ fn main() {
     let cmd = std::env::args().nth(1).unwrap_or_default();
     if cmd == "replay-keyspace" {
         return keyspace::main();
+    }
+    if cmd == "replay-consumers" {
+        return consumers::replay();
     }
     if cmd == "record-group" {
         return group::record();
